@@ -188,5 +188,5 @@ from pyvc.contract import CLASSES
 for _c in ("HedTag", "HedGroup", "HedString"):
     CLASSES[_c]["opaque_methods"] = True      # in frame-only (havoc) contracts their unmodelled methods are opaque calls
 
-for _c in ("HedGroup", "HedString"):
+for _c in ("HedGroup", "HedString", "HedTag"):
     CLASSES[_c]["structural_eq"] = True       # __eq__ compares children, not identity
